@@ -24,6 +24,8 @@ type Program struct {
 
 // Load type-checks and builds SSA for the patterns in dir, with optional overlay files.
 func Load(dir string, patterns []string, overlay map[string][]byte, env []string) (*Program, error) {
+	pruneExternals()
+	installExternals()
 	cfg := &packages.Config{Mode: packages.LoadAllSyntax, Dir: dir, Overlay: overlay, Env: append(os.Environ(), env...)}
 	pkgs, err := packages.Load(cfg, patterns...)
 	if err != nil {
